@@ -48,6 +48,22 @@ let body lines =
     | ["del"; g] -> do_op (ODestroy (ni g))
     | ["isl"; g] -> do_op (OIsLocked (ni g))
     | ["prot"; g; m] -> do_op (OProtects (ni g, ni m))
+    | ["api"] ->
+      (* the table of offered transfer operations, same canonical line as the harness prints from the type traits *)
+      let b k x = if offers k x then "1" else "0" in
+      let row k = Printf.sprintf "%s cc%s mc%s ca%s ma%s sw%s" (kind_ch k) (b k XCopyCons) (b k XMoveCons) (b k XCopyAssign) (b k XMoveAssign) (b k XSwap) in
+      print_string ("api " ^ String.concat " | " (List.map row [KUnique; KShared; KQs]) ^ "\n");
+      print_string (show_store !s ^ "\n")
+    | ["cpc"; k; g; h] ->
+      (* copy construction / copy assignment: offered by no guard type in the model *)
+      (match kind_of k with
+       | Some k -> if offers k XCopyCons then print_string "unmodelled\n" else print_string "invalid\n"; print_string (show_store !s ^ "\n")
+       | None -> ())
+    | ["cpa"; g; h] ->
+      (match sget !s (ni g) with
+       | Some x when offers x.g_kind XCopyAssign -> print_string "unmodelled\n"
+       | _ -> print_string "invalid\n");
+      print_string (show_store !s ^ "\n")
     | ["end"] -> List.iter (fun g -> do_op (ODestroy g)) (live_ids !s); print_string "end\n"
     | _ -> ()) lines
   with Stopped -> ()
